@@ -43,16 +43,18 @@ func (s *ReplicationStreamObserver) ReportStreamValue(idx int32, value int32) {
 		return
 	}
 	s.streamGrowLock.Lock()
+	// Release the lock on every path, including a panic below: a leaked lock blocks every later stream.
+	defer s.streamGrowLock.Unlock()
 	// We want to grow the minimum number of times, so
-	if idx >= int32(len(s.streamActive)) {
+	if int(idx) >= len(s.streamActive) {
 		// Each index will be uniformly random in the range [0, maxStreams). Growing by a percentage of index helps
-		// minimize the amount of reallocation required. Starting with increasing to 125% of idx to keep memory waste low
-		newSize := min(int((idx+1)*9), math.MaxInt32) / 8
+		// minimize the amount of reallocation required. Starting with increasing to 125% of idx to keep memory waste low.
+		// Computed in int64: (idx+1)*9 overflows int32 for idx >= 238609294. The result is always > idx.
+		newSize := int(min((int64(idx)+1)*9/8, int64(math.MaxInt32)+1))
 		// grow and maximize
-		s.streamActive = slices.Grow(s.streamActive, newSize)[:newSize]
+		s.streamActive = slices.Grow(s.streamActive, newSize-len(s.streamActive))[:newSize]
 	}
 	s.streamActive[idx].Add(value)
-	s.streamGrowLock.Unlock()
 }
 func (s *ReplicationStreamObserver) PrintActiveStreams() string {
 	sb := strings.Builder{}
